@@ -254,6 +254,8 @@ CLAIMED = {
     ),
 }
 
+FUZZED = {"C04", "C05", "C06", "C11", "C12", "C18", "C19", "C20"}
+
 PENDING_REASON = "check not built yet in this session; the design (DESIGN.md section 3) claims it and it will be registered once it is quiet on the unchanged tree and catches its mutants"
 
 
@@ -265,6 +267,8 @@ def main():
         pid = p["id"]
         if pid in CLAIMED:
             text, note, tech, ref = CLAIMED[pid]
+            if pid in FUZZED:
+                tech += "; thorough tier adds a coverage-guided campaign (atheris/libFuzzer driving the same Hypothesis strategy and oracle)"
             checks.append(
                 {
                     "property_id": pid,
@@ -299,7 +303,8 @@ def main():
                 "serves_properties": sorted(CLAIMED),
                 "kind_free_text": "Hypothesis-driven property-based testing harness: plain-data "
                 "cases, 16 seeded shards, scripted/seeded random layer, reference oracles, "
-                "bounded-exhaustive sub-domains, chi-square goodness of fit for distribution laws",
+                "bounded-exhaustive sub-domains, chi-square goodness of fit for distribution laws; "
+                "optional coverage-guided stage (atheris/libFuzzer over the same strategies, vk/fuzz.py)",
             }
         ],
         "checks": checks,
